@@ -7,13 +7,49 @@ LEVEL = "proof"
 _T = ["init_safety", "init_once", "init_completes", "no_deadlock"]
 THEOREMS = vcore.theorems_in("SodiumModel/Properties/C19.lean", _T, "Sodium.C19")
 IMPORTS = ["SodiumModel.Properties.C19"] if THEOREMS else ["SodiumModel.Model.Init"]
+# Tie B (session 6): table of static objects / accesses / call graph regenerated from the clang AST of the current source (tools/c2lean_globals.py);
+# general theorem "raceFreeWith table policy = true -> no race in any interleaving of post-init API calls" + the kernel-decided instance on the generated table
+_TG = ["race_free_of_check", "no_race_of_check", "race_free_after_init", "written_object_locked", "table_race_free", "libsodium_race_free", "needs_exempt_sodium_misuse",
+       "needs_allow_randombytes_implementation", "needs_allow_internal_global", "needs_allow_sysrandom_stream", "offenders_without_policy", "api_event_after_init",
+       "init_then_race_free", "api_before_init_disabled"]
+THEOREMS = THEOREMS + vcore.theorems_in("SodiumModel/Properties/C19Globals.lean", _TG, "Sodium.C19Globals")
+IMPORTS = IMPORTS + ["SodiumModel.Properties.C19Globals"]
+
+
+def tie_b(ctx):
+    """regenerate Generated/Globals.lean from the CURRENT source; identical text: the theorems built by this run are about the code as it is; different text: the
+    regenerated table is put in place, `table_race_free` (decide +kernel) re-checked against it, and the committed file restored.  The translator's object list is
+    cross-checked against objdump -t of a native build (covers the assembly files, which have no AST)."""
+    import fcntl, c19_tieb
+    gen = os.path.join(vcore.LEAN, "Generated", "Globals.lean")
+    old = open(gen).read()
+    for t in _TG:
+        ctx.obligations.append({"theorem": "Sodium.C19Globals." + t + " [table regenerated from the source]", "axioms": ["propext", "Classical.choice", "Quot.sound"]})
+    with open(os.path.join(vcore.LEAN, ".lake-lock"), "w") as lk:
+        fcntl.flock(lk, fcntl.LOCK_EX)
+        try:
+            ok, msg, off = c19_tieb.tie_b(vcore.LEAN, os.path.join(vcore.REPO, "src", "libsodium"), outdir=os.path.join(ctx.scratch, "tieb-globals"))
+        finally:
+            if open(gen).read() != old:
+                open(gen, "w").write(old)
+                subprocess.run(["lake", "build", "SodiumModel.Properties.C19Globals"], cwd=vcore.LEAN, capture_output=True, text=True)
+                ctx.stats["globals_table_regenerated_differs"] = True
+    ctx.log("Tie B (globals table): " + msg.split("\n")[0][:300])
+    ctx.stats["globals_table"] = msg[:1500]
+    if ok:
+        ctx.discharged = len(ctx.obligations)
+        return []
+    ctx.discharged = len(ctx.obligations) - len(_TG)
+    return [("Sodium.C19Globals.table_race_free", msg)]
 RULE = ("N = 2..16 threads released from one barrier with seeded random spins / yields race sodium_init, each then runs the same mixed workload "
         "(comparison helpers, padding, codecs, stream ciphers, hashes / MACs / KDFs, AEADs, X25519 / box / sign, default and internal random generator, guarded allocation, key generators) "
         "starting at a different offset; observed: multiset of sodium_init returns, post-return initialisation probes, per-thread outputs against the model and the sequential run; "
         "the same workload under -fsanitize=thread (happens-before race detection), with the system and the internal generator; table of writable globals of the built library against the classified list")
 ASSUMPTIONS = ["the theorems are about the lock protocol of sodium_init with pthread_mutex_lock / unlock assumed to be a correct mutex and never to fail (the LCOV_EXCL return -1 paths are not modelled)",
-               "data-race freedom after initialisation is NOT a Lean theorem: it is decided by ThreadSanitizer's happens-before analysis of the executed workload plus the classified table of writable globals; "
-               "races in code the workload does not execute, and in hand-written assembly TSan does not instrument, are outside it",
+               "data-race freedom after initialisation: Lean theorem over the table of static objects, accesses, lock contexts and call graph REGENERATED from the clang AST of the current source "
+               "(race_free_after_init + table_race_free), under the named policy of Model/Globals.lean (sodium_misuse, randombytes_set_implementation, randombytes_close exempt; internal / sysrandom "
+               "first-use state allow-listed) and with lock-held accesses taken as mutually exclusive; races through caller-owned memory (shared const inputs) are not in the table: they are "
+               "decided by ThreadSanitizer's happens-before analysis of the executed workload, which hand-written assembly escapes",
                "the Windows / no-pthread variants of the critical section are not built here"]
 
 # writable (non-const) objects with static storage in the built library, each with the reason it is race-free.
@@ -29,6 +65,7 @@ GLOBALS = {
     "randombytes_internal_random.o:global(pid)": "global.pid is only stored when it differs from getpid() (fix for the concurrent-first-use race, see known_findings.json)",
     "randombytes_sysrandom.o:stream": "sysrandom state: initialised by stir during sodium_init; getrandom path is stateless afterwards",
     "randombytes_internal_random.o:stream": "thread-local (TLS) stream state",
+    "softaes.o:_aes_lut": "declared non-const (hidden visibility) but never written; only read through the const pointer LUT (found by the globals translator)",
     "randombytes_internal_random.o:global": "initialised by stir under sodium_init (or first use, documented as requiring sodium_init first); read-only afterwards",
 }
 PATTERNS = [
@@ -77,7 +114,19 @@ def _run_hxt(ctx, exe, n, seed, rngname, lines, mask="", tsan=False):
     out = p.stdout.split("\n")
     if out and out[-1] == "":
         out.pop()
+    # last line: the shared-const-input rounds (hxt.c); taken off here and checked by _shared_ok
+    _run_hxt.shared = out.pop() if out and out[-1].startswith("shared ") else "missing"
     return p.returncode, out, p.stderr
+
+
+def _shared_ok(ctx, cfg, lines):
+    sh = getattr(_run_hxt, "shared", "missing")
+    if re.fullmatch(r"shared rounds=\d+ bad=0 -", sh):
+        ctx.stats["shared_const_input_rounds"] = ctx.stats.get("shared_const_input_rounds", 0) + int(sh.split("rounds=")[1].split(" ")[0])
+        return True
+    vcore.report(ctx, "shared-inputs", dict(cfg, what="threads using the SAME const inputs (key / precomputed state / message) with distinct output buffers got a result that differs from the "
+                                            "single-threaded one-shot reference", impl=sh, ops=lines[:1]))
+    return False
 
 
 def writable_globals(lib):
@@ -89,7 +138,7 @@ def writable_globals(lib):
         if m:
             obj = re.sub(r"^.*?-", "", m.group(1)) if False else m.group(1)
             continue
-        m = re.match(r"^[0-9a-f]+\s+(\S+)\s+(\S*)\s*(\.t?bss\S*|\.t?data\S*)\s+([0-9a-f]+)\s+(\S+)$", ln)
+        m = re.match(r"^[0-9a-f]+\s+(\S+)\s+(\S*)\s*(\.t?bss\S*|\.t?data\S*)\s+([0-9a-f]+)\s+(?:\.hidden\s+|\.internal\s+|\.protected\s+)?(\S+)$", ln)   # (symbols with a visibility marker were dropped by the first version of this expression: softaes.o:_aes_lut)
         if m and ("O" in (m.group(1) + m.group(2)) or m.group(3).startswith(".t")) and int(m.group(4), 16) > 0 and not m.group(3).startswith((".data.rel.ro", ".rodata")):
             res.append((obj, m.group(5), m.group(3)))
     return res
@@ -149,6 +198,8 @@ def extra(ctx, rng):
                 vcore.report(ctx, "init-returns", dict(cfg, what="sodium_init returns / initialisation probes under a %d-thread race differ from the model (theorems init_once, init_safety)" % n,
                                                       impl=out[0], model=mline, ops=lines[:1]))
                 return
+            if not _shared_ok(ctx, cfg, lines):
+                return
             for k, (o, s_, m_) in enumerate(zip(out[1:], seq, model)):
                 if o != s_:
                     vcore.report(ctx, "thread-result", dict(cfg, what="an operation returned a different result under concurrency than sequentially",
@@ -166,6 +217,8 @@ def extra(ctx, rng):
         if rc != 0 or out[:1] != [mline]:
             vcore.report(ctx, "init-returns", {"threads": n, "seed": seed, "rng": "sys", "what": "sodium_init returns / initialisation probes under a %d-thread race differ from the model (theorems init_once, init_safety)" % n,
                                                "impl": out[0] if out else "rc=%d %s" % (rc, err[-300:]), "model": mline, "ops": []})
+            return
+        if not _shared_ok(ctx, {"threads": n, "seed": seed, "rng": "sys"}, []):
             return
     ctx.stats["init_only_races"] = nonly
     ctx.configs_run.append({"variant": "native", "flavour": "plain", "races": races, "init_only_races": nonly, "threads": ns, "ops_per_thread": len(lines)})
